@@ -9,6 +9,7 @@ Line protocol (symbolic crypto instance `symCrypto`):
           <m4: r:<pd> (the M4 envelope) | raise:protocol | raise:http | raise:timeout | raise:auth>
     → `<ok|err:<Class>> keys=<out>/<in>|none trace=<ev>;<ev>;…`   (ev = name:hex:hex…)
   verify <same arguments>   → the same for `verify_credentials()` alone: `<ok|err:<raw Class>> keys=none trace=…`
+  select <none|hap|legacy|transient> <0|1: peer advertises a pairing feature bit>  → null|transient|legacy|hap
   readtlv <hex>   → `err` | `<tag>=<hex>,<tag>=<hex>…` (insertion order; `-` when empty)
   writetlv <tag>=<hex>,…  → hex
 -/
@@ -102,6 +103,16 @@ def handle (_ : Unit) (ws : List String) : Unit × String :=
       let tr := if out.1.isEmpty then "-" else String.intercalate ";" (out.1.map Ev.toStr)
       ((), s!"{res} keys=none trace={tr}")
     | _, _, _, _, _, _, _, _, _ => ((), "bad-op")
+  | ["select", stored, adv] =>
+    let st : Option Stored := match stored with
+      | "none" => some .none | "hap" => some (.hap ⟨[], [], [], []⟩) | "legacy" => some .legacy
+      | "transient" => some .transient | _ => none
+    let ad : Option Bool := match adv with | "0" => some false | "1" => some true | _ => none
+    match st, ad with
+    | some st, some ad =>
+      ((), match extractCredentials st ad with
+        | .null => "null" | .transient => "transient" | .legacy => "legacy" | .hap _ => "hap")
+    | _, _ => ((), "bad-op")
   | ["readtlv", h] =>
     match ofHex? h with
     | some b => match readTlv b with
